@@ -17,7 +17,9 @@ def is_failed_load(op, o):
     return op[0] in (31, 32) and o[0][0] == 999
 
 
-def spec_check(kind, rows, lf, ops, obs, impl, impl_kwargs=None, check_fresh=True):
+def spec_check(kind, rows, lf, ops, obs, impl, impl_kwargs=None, check_fresh=True, fresh_kwargs=None):
+    """fresh_kwargs: how the fresh reference enforcer of the last clause is built when the enforcer under test carries
+    configuration of its own (matching functions, an installed role manager): the reference carries the same"""
     out = []
     n = len(ops)
     for i, (op, o) in enumerate(zip(ops, obs)):
@@ -58,7 +60,7 @@ def spec_check(kind, rows, lf, ops, obs, impl, impl_kwargs=None, check_fresh=Tru
             while j < n and ops[j][0] in QUERY_OPS:
                 j += 1
             if j > i + 1:
-                exp = fresh_results(kind, obs[i], ops[i + 1:j])
+                exp = fresh_results(kind, obs[i], ops[i + 1:j], fresh_kwargs)
                 if exp is not None:
                     for k in range(i + 1, j):
                         if obs[k][0] != exp[k - i - 1]:
@@ -78,17 +80,32 @@ def spec_check_async(kind, rows, lf, ops, obs, impl):
 spec_check_async.case_extra = dict(enforcer="AsyncEnforcer")
 
 
-def make_case(rng, kind, mode, weights=None, auto_build_off=False, keep=None):
+def make_case(rng, kind, mode, weights=None, auto_build_off=False, keep=None, rule_uni=None, probe_uni=None, extra_probe=None,
+              post=None, probe_roles=True, sync_before_probe=False):
+    """rule_uni / probe_uni: callables that edit the universe the rules / the probe requests are drawn from;
+    extra_probe(kind, uni) -> further query ops appended to every probe; post(kind, rows, ops) -> (rows, ops) last filter;
+    probe_roles=False: the probe asks for decisions only (plus extra_probe); sync_before_probe: build_role_links() is called
+    after the initial history, so that the role links are a build from the policy when the first reload is attempted"""
     uni = mgmt.Universe(kind)
     g = mgmt.Gen(rng, kind, weights or W)
+    if rule_uni is not None:
+        rule_uni(g.uni)
+    if probe_uni is not None:
+        probe_uni(uni)
     rows = g.rows(rng.randint(1, 8))
-    probe = mgmt.probe_ops(kind, uni)
+    probe = mgmt.probe_ops(kind, uni, roles=probe_roles)
+    if extra_probe is not None:
+        probe = probe + extra_probe(kind, uni)
+    if rule_uni is not None:
+        uni = g.uni                                   # the poisoned rows below are drawn from the rules' universe
     ops = []
     # memory state that differs from the adapter rows: built with auto-save off
     ops.append((35, False))
     ops += g.history(rng.randint(0, 8), final_probe=False)
     if auto_build_off:
         ops.append((36, False))          # from here on neither a reload nor a management call touches the role links
+    if sync_before_probe:
+        ops.append((34,))
     ops += probe
     if mode == "adapter":
         ks = list(range(0, len(rows) + 1))
@@ -101,6 +118,8 @@ def make_case(rng, kind, mode, weights=None, auto_build_off=False, keep=None):
         ops += probe
     ops += g.history(rng.randint(0, 5), final_probe=False)
     if rng.random() < 0.5:
+        if sync_before_probe:
+            ops.append((34,))
         ops.append((31,))
     ops += probe
     # poison the adapter rows for the late failure sites
@@ -121,6 +140,8 @@ def make_case(rng, kind, mode, weights=None, auto_build_off=False, keep=None):
     if (weights or {}).get("long_g"):
         # never two grouping rules sharing their declared-arity prefix (known finding C04/overlong-rules-share-a-link)
         ops = mgmt.drop_prefix_aliases(kind, rows, ops)
+    if post is not None:
+        rows, ops = post(kind, rows, ops)
     return (rows, False, ops)
 
 
@@ -205,6 +226,179 @@ def run_added(chk, n):
             st[f"fault_overlong_g_{'async_' if is_async else ''}{kn}"] = len(cases)
 
 
+# ----------------------------------------------------------------------------- strata added after the fifth seeding wave:
+# the enforcer's role managers CARRY CONFIGURATION (a matching function, a domain matching function, a manager installed by
+# the application) and the application holds references to them
+import casbin                                                                   # noqa: E402
+from casbin import util as _util                                                # noqa: E402
+from casbin.rbac import default_role_manager as _drm                            # noqa: E402
+from .c04 import STAR, drop_shared_pairs                                        # noqa: E402
+
+_A = mgmt.ATOMS.a
+PAT_OBJS = [_A("/book/1"), _A("/book/2"), _A("/book/:id")]      # interned at import time so that replays decode the same atoms
+PAT_SUB = _A("b*")
+D3 = _A("d3")
+
+CONFIGS = {
+    # name: (model kinds, what the constructor does to the enforcer)
+    "pattern-functions": ("rbac_res",),           # util.key_match2 on g2 (resource roles), util.key_match on g (user roles)
+    "domain-matching-function": ("dom",),         # util.key_match as domain matching function of g ("*" = every domain)
+    "installed-role-manager": ("rbac", "dom"),    # set_role_manager(<a manager that follows DIRECT assignments only>)
+    "installed-role-manager+domain-matching-function": ("dom",),
+}
+
+
+def _configure(e, config):
+    if config == "pattern-functions":
+        e.add_named_matching_func("g2", _util.key_match2)
+        e.add_named_matching_func("g", _util.key_match)
+    if "installed-role-manager" in config:
+        e.set_role_manager(type(e.get_role_manager())(2))           # max_hierarchy_level 2: the user's direct roles only
+    if "domain-matching-function" in config:
+        e.add_named_domain_matching_func("g", _util.key_match)
+
+
+_CFG_CLS = {}
+
+
+def configured_enforcer(config, is_async):
+    """casbin.Enforcer (or the facade over AsyncEnforcer) configured right after construction; get_named_role_manager hands out
+    the REFERENCES the application obtained at that moment (the role managers it configured / installed), so the history's
+    rm.has_link queries go through objects the application has been holding since before any reload"""
+    key = (config, is_async)
+    if key not in _CFG_CLS:
+        if is_async:
+            from ..async_facade import AsyncFacade
+
+            class Configured(AsyncFacade):
+                def __init__(self, *a, **k):
+                    super().__init__(*a, **k)
+                    _configure(self._e, config)
+                    object.__setattr__(self, "_held", dict(self._e.rm_map))
+
+                def get_named_role_manager(self, ptype):
+                    return self.__dict__["_held"][ptype]
+        else:
+            class Configured(casbin.Enforcer):
+                def __init__(self, *a, **k):
+                    super().__init__(*a, **k)
+                    _configure(self, config)
+                    self._held = dict(self.rm_map)
+
+                def get_named_role_manager(self, ptype):
+                    return self._held[ptype]
+        Configured.__name__ = "Configured" + ("AsyncEnforcer" if is_async else "Enforcer")
+        _CFG_CLS[key] = Configured
+    return _CFG_CLS[key]
+
+
+_CFG_SPEC = {}
+
+
+def spec_check_configured(config, is_async):
+    key = (config, is_async)
+    if key not in _CFG_SPEC:
+        kw = dict(enforcer_cls=configured_enforcer(config, is_async))
+
+        def sc(kind, rows, lf, ops, obs, impl):
+            n = pattern_premise_cut(ops, obs) if config == "pattern-functions" else len(ops)
+            return spec_check(kind, rows, lf, ops[:n], obs[:n], impl, impl_kwargs=kw, fresh_kwargs=kw)
+        sc.case_extra = dict(configuration=config, enforcer="AsyncEnforcer" if is_async else "Enforcer")
+        _CFG_SPEC[key] = sc
+    return _CFG_SPEC[key]
+
+
+def pattern_premise_cut(ops, obs):
+    """C11's hypothesis made checkable for role managers with a matching function: when a reload is attempted the role links
+    are a BUILD from the policy - no role assignment was added through the API since the last build_role_links() / successful
+    reload / rolled-back reload (an incrementally added pattern link reaches names asked about earlier differently from a
+    build; that is C04/C14 territory).  Returns the index of the first load_policy attempted outside the hypothesis (the
+    spec is evaluated on the history before it) or len(ops)."""
+    in_sync = True
+    for i, (op, o) in enumerate(zip(ops, obs)):
+        c = op[0]
+        if c in (31, 32):
+            if not in_sync:
+                return i
+        elif c == 34 and o[0][0] == 0:
+            in_sync = True
+        elif (c in (1, 2, 3, 4, 5) and op[1] in (1, 2)) or c in (9, 10, 11, 16, 17, 18, 19, 20, 30, 36, 39):
+            in_sync = False
+    return len(ops)
+
+
+def _pattern_keep(op):
+    # Role managers with a matching function (a) let one stored link stand for several assignments (listed findings of C04 /
+    # C14): the histories of the pattern stratum only ADD role assignments through the API (memory still differs from the
+    # store); (b) create a node for every name they are ASKED about and hang it under the matching patterns, so the LISTING
+    # queries (get_roles / get_users / implicit ...) of an enforcer depend on what it was asked earlier - with or without a
+    # reload.  The observations of this stratum are therefore the decisions, has_link through the held role managers and the
+    # stored rules; and build_role_links() precedes the first probe (C11's hypothesis: the links are a build from the policy
+    # when the reload is attempted - an incrementally added pattern link reaches names asked about earlier differently).
+    c = op[0]
+    if (c in (3, 4, 5) and op[1] in (1, 2)) or c in (9, 10, 11, 17, 18, 20):
+        return False
+    return c < 50 or c in (50, 51, 52, 53, 54, 59, 65, 66, 67)
+
+
+def _has_link_probe(kind, uni):
+    ops = []
+    if kind.g:
+        for u in uni.subs:
+            for v in uni.subs:
+                if u != v:
+                    if kind.dom:
+                        ops += [(59, 1, u, v, [d]) for d in uni.doms]
+                    else:
+                        ops.append((59, 1, u, v, []))
+    if kind.g2:
+        ops += [(59, 2, a, b, []) for a in uni.objs for b in uni.objs if a != b]
+    return ops
+
+
+def configured_case(rng, kind, config, mode):
+    if config == "pattern-functions":
+        def rule_uni(u):
+            u.subs = u.subs + [PAT_SUB]
+            u.objs = [_A("data1"), _A("grp")] + PAT_OBJS
+
+        def probe_uni(u):
+            u.objs = [_A("data1"), _A("grp")] + PAT_OBJS[:2]
+        return make_case(rng, kind, mode, keep=_pattern_keep, rule_uni=rule_uni, probe_uni=probe_uni, extra_probe=_has_link_probe,
+                         probe_roles=False, sync_before_probe=True)
+    if "domain-matching-function" in config:
+        def rule_uni(u):
+            u.doms = u.doms + [STAR]
+
+        def probe_uni(u):
+            # d3 never holds a rule of its own: what it knows comes from the "*" links only; "*" is asked about literally
+            u.doms = u.doms + [D3, STAR]
+        return make_case(rng, kind, mode, rule_uni=rule_uni, probe_uni=probe_uni, extra_probe=_has_link_probe,
+                         post=lambda k, rows, ops: drop_shared_pairs(k, rows, ops))
+    return make_case(rng, kind, mode, extra_probe=_has_link_probe)
+
+
+def run_configured(chk, n):
+    """the fault strata (adapter failing after k rows, a short grouping row = failure in the LINK phase, successful reloads)
+    on enforcers whose role managers carry configuration and whose role managers the application holds references to;
+    every domain is asked about BEFORE the reload (probe), so per-domain caches exist.  Implementation only (the Mgmt model
+    has no matching functions): SPEC = spec_check with twin and fresh reference configured the same way."""
+    rng = chk.rng
+    st = chk.extra.setdefault("strata", {})
+    for is_async in (False, True):
+        for config, kinds in CONFIGS.items():
+            for kn in kinds:
+                kind = mgmt.KINDS[kn]
+                m = max(8, n // (3 if is_async else 1))
+                cases = [configured_case(rng, kind, config, ["short_g", "adapter", "short_g", "ok"][i % 4]) for i in range(m)]
+                mgmt.run_cases(chk, kind, cases, spec_check_configured(config, is_async),
+                               label=f"fault-configured-{config}-{'async-' if is_async else ''}{kn}",
+                               impl_kwargs=dict(enforcer_cls=configured_enforcer(config, is_async)), compare_model=False,
+                               key_fn=lambda k, r, o, _t=(config, is_async): ("configured", _t, k.name, repr(r), repr([x for x in o if x[0] < 50])))
+                key = f"fault_configured_{config}{'_async' if is_async else ''}"
+                st[key] = st.get(key, 0) + len(cases)
+
+
 def run(chk, n):
     rng = chk.rng
     for kn in ("rbac", "dom", "rbac_res", "prio_rbac", "acl"):
@@ -276,15 +470,26 @@ def main():
                 "(every call awaited) for RBAC, domain and priority-RBAC models; distinct by (kind, rows, mutating calls)"
                 "; the same fault modes (and plain successful reloads) on a FastEnforcer with a role model (2 cache-key orders), with "
                 "auto_build_role_links switched off just before the reload (sync and async; links in step at that moment), and with "
-                "grouping rules longer than the role definition in the kept policy (sync and async)")
+                "grouping rules longer than the role definition in the kept policy (sync and async)"
+                "; the same fault modes on enforcers whose role managers carry configuration (matching functions on g / g2, a "
+                "domain matching function with rules in the pattern domain '*', a role manager installed with set_role_manager) "
+                "and are referenced by the application, sync and async")
     chk.assumptions = ["role links were in sync with the policy before the failed call (C04's invariant; auto-build on, or switched "
                        "off only after the last change - then 'a successful reload replaces the links' is not demanded)",
-                       "failure = an exception raised by the adapter or by the model code; process crashes are out of scope"]
+                       "failure = an exception raised by the adapter or by the model code; process crashes are out of scope",
+                       "role managers with a matching function: the hypothesis is 'no role assignment added through the API since the "
+                       "last build of the links' (checked by the spec; incremental pattern links vs. a build is C04/C14's concern), and the "
+                       "listing queries (get_roles / get_users ...) are not observed there - such a manager's listings depend on which "
+                       "names it was asked about earlier, reload or not"]
     chk.trusted = ["hand-written models coq/theories/{Policy,RoleGraph,Mgmt}.v tied by the differential history correspondence"]
     chk.build(oracle_name="Mgmt")
     if chk.replay_file:
         import json
         c = (json.load(open(chk.replay_file)).get("case") or {})
+        if c.get("configuration"):
+            chk.oracle = None      # implementation-level stratum (the Mgmt model has no matching functions)
+            t = (c["configuration"], c.get("enforcer") == "AsyncEnforcer")
+            return mgmt.replay_case(chk, spec_check_configured(*t), impl_kwargs=dict(enforcer_cls=configured_enforcer(*t)))
         if c.get("enforcer") == "FastEnforcer":
             chk.oracle = None      # implementation-level stratum (the index order of FastPolicy is not the model's)
             return mgmt.replay_case(chk, spec_check_fast(c["cache_key_order"]), impl_kwargs=fast_kwargs(c["cache_key_order"]))
@@ -300,9 +505,13 @@ def main():
     if chk.tier == "thorough":
         run(chk, 1200)
         run_added(chk, 1200)
+        run_configured(chk, 600)
     else:
         run(chk, 120)
         run_added(chk, 120)
+        run_configured(chk, 48)
+        if (chk.broken() or chk.anchor_changed) and not chk.spec_failures:
+            run_configured(chk, 200)
         if (chk.broken() or chk.anchor_changed) and not chk.spec_failures:
             run(chk, 600)
             if not chk.spec_failures:
